@@ -5,7 +5,7 @@
 (* so the gradient the implementation returns can be compared with its own values without any tolerance; a declared convexity     *)
 (* must satisfy f(z) >= f(x) + g(x).(z - x) on lattice pairs.  Losses on integer data: piecewise-linear / quadratic losses have    *)
 (* exact values; the 0-1 errors follow the arg-max (first maximum) / sign rules; losses are non-negative and per-sample local.      *)
-(* All values are logged times 2 (styblinski-tang has half-integer coefficients).                                                  *)
+(* Function values are logged times 2 (half-integer coefficients), loss values and gradients times 4 (pinball alpha in quarters).  *)
 EXTENDS Integers, Sequences, FiniteSets, TLC, Json, IOUtils
 TraceLog == ndJsonDeserialize(IOEnv.TRACE)
 VARIABLE l
@@ -16,11 +16,13 @@ Abs(v) == IF v < 0 THEN -v ELSE v
 Max0(v) == IF v > 0 THEN v ELSE 0
 
 \* the exact five-point stencil along coordinate i: g2 = 2 g_i(x), f values times 2
+\* (along an arbitrary lattice direction d: g2 = 2 g(x).d, fp1 = 2 f(x + h d), ...)
 Stencil == /\ Is("Stencil") /\ l' = l + 1
            /\ 12 * Ev.h * Ev.g2 = -Ev.fp2 + 8 * Ev.fp1 - 8 * Ev.fm1 + Ev.fm2
            /\ Ev.valueOnlySame                                 \* value-only call = value of the value+gradient call
 \* first-order convexity inequality for functions declaring themselves convex: f(z) >= f(x) + g(x).(z - x)
-Convex == /\ Is("Convex") /\ l' = l + 1 /\ (Ev.declared => Ev.fz2 >= Ev.fx2 + Ev.gdot2)
+\* (+ (mu/2)||z - x||^2 with the declared strong-convexity coefficient: munorm2 = floor(mu ||z - x||^2))
+Convex == /\ Is("Convex") /\ l' = l + 1 /\ (Ev.declared => Ev.fz2 >= Ev.fx2 + Ev.gdot2 + Ev.munorm2)
 \* ---- losses on integer targets t and outputs o (one sample); values times 2
 ArgMax(o) == CHOOSE i \in DOMAIN o : (\A j \in DOMAIN o : o[j] <= o[i]) /\ (\A j \in 1..(i - 1) : o[j] < o[i])     \* first maximum
 Err(kind, t, o) == CASE kind = "absdiff" -> SumSeq([k \in DOMAIN t |-> Abs(t[k] - o[k])])
@@ -33,12 +35,32 @@ Val2(name, t, o, a4) == CASE name = "mse" -> SumSeq([k \in DOMAIN t |-> (o[k] - 
                           [] name = "squared-hinge" -> 2 * SumSeq([k \in DOMAIN t |-> Max0(1 - t[k] * o[k]) * Max0(1 - t[k] * o[k])])
                           \* pinball with alpha = a4 / 4: 2 sum(alpha (t - o)+ + (1 - alpha)(o - t)+)  (times 4 below)
                           [] OTHER -> -1
+Between(v, a, b) == (a <= v /\ v <= b) \/ (b <= v /\ v <= a)
+\* the (sub)gradient wrt the outputs, times 4: the derivative where differentiable, inside the subdifferential at the kinks
+GradOK(name, t, o, g4, a4) ==
+    \A k \in DOMAIN t : LET u == t[k] * o[k]  d == o[k] - t[k] IN
+        CASE name = "mse" -> g4[k] = 4 * d
+          [] name = "mae" -> IF d > 0 THEN g4[k] = 4 ELSE IF d < 0 THEN g4[k] = -4 ELSE Between(g4[k], -4, 4)
+          [] name = "hinge" -> IF u < 1 THEN g4[k] = -4 * t[k] ELSE IF u > 1 THEN g4[k] = 0 ELSE Between(g4[k], 0, -4 * t[k])
+          [] name = "squared-hinge" -> g4[k] = -8 * t[k] * Max0(1 - u)
+          [] name = "pinball" -> IF d > 0 THEN g4[k] = 4 - a4 ELSE IF d < 0 THEN g4[k] = -a4 ELSE Between(g4[k], -a4, 4 - a4)
+          [] OTHER -> TRUE
+Dot(a, b) == SumSeq([k \in DOMAIN a |-> a[k] * b[k]])
+Exact == {"mse", "mae", "hinge", "squared-hinge", "pinball"}
 Loss == /\ Is("Loss") /\ l' = l + 1
-        /\ Ev.err = Err(Ev.ekind, Ev.t, Ev.o)                                          \* the decision rule of the 0-1 / absolute error
-        /\ (Ev.base \in {"mse", "mae", "hinge", "squared-hinge"} => Ev.val2 = Val2(Ev.base, Ev.t, Ev.o, 0))
-        /\ (Ev.base = "pinball" => 2 * Ev.val2 = SumSeq([k \in DOMAIN Ev.t |-> Ev.a4 * Max0(Ev.t[k] - Ev.o[k]) + (4 - Ev.a4) * Max0(Ev.o[k] - Ev.t[k])]))
+        /\ (Ev.base \in Exact => GradOK(Ev.base, Ev.t, Ev.o, Ev.g4, Ev.a4))
+        \* declared convex: L(t, z) >= L(t, o) + g.(z - o), exactly on the lattice for the exact losses (val4 = 4 L(t, o), valz4 = 4 L(t, z))
+        /\ ((Ev.base \in Exact /\ Ev.convex) => Ev.valz4 >= Ev.val4 + Dot(Ev.g4, [k \in DOMAIN Ev.o |-> Ev.z[k] - Ev.o[k]]))
+        \* the transcendental losses: the driver's central-difference / tolerance oracles (environment predicates)
+        /\ Ev.gradOK /\ Ev.convexOK /\ Ev.valueSame
+        /\ (IF Ev.ekind = "value" THEN Ev.err = Ev.val4 ELSE Ev.ekind = "none" \/ Ev.err = Err(Ev.ekind, Ev.t, Ev.o))                                        \* the decision rule of the 0-1 / absolute error
+        /\ (Ev.base \in {"mse", "mae", "hinge", "squared-hinge"} => Ev.val4 = 2 * Val2(Ev.base, Ev.t, Ev.o, 0))
+        /\ (Ev.base = "pinball" => Ev.val4 = SumSeq([k \in DOMAIN Ev.t |-> Ev.a4 * Max0(Ev.t[k] - Ev.o[k]) + (4 - Ev.a4) * Max0(Ev.o[k] - Ev.t[k])]))
         /\ Ev.nonneg /\ Ev.local                                                        \* non-negative; unchanged by the other samples of the batch
-Next == Stencil \/ Convex \/ Loss
+\* every registered function prototype at dims 1..32 on real-valued points: the driver's oracles (central differences along a random
+\* direction for smooth functions, the convexity inequality with a relative tolerance) - environment predicates
+Generic == /\ Is("Generic") /\ l' = l + 1 /\ Ev.valueOnlySame /\ (Ev.smooth => Ev.gradOK) /\ (Ev.convex => Ev.convexOK)
+Next == Stencil \/ Convex \/ Loss \/ Generic
 Init == l = 1
 Spec == Init /\ [][Next]_l
 Accepted == LET d == TLCGet("stats").diameter IN
